@@ -38,27 +38,32 @@ def oracle_eigen(ctx: Ctx, c):
     from abtem import Waves
     from abtem.finite_difference import LaplaceOperator, finite_difference_coefficients
 
+    import abtem
+
     n0, n1 = c["gpts"]
     sx, sy = c["sampling"]
     kx, ky = c["k"]
+    f64 = c.get("precision") == "float64"
     i, j = np.meshgrid(np.arange(n0), np.arange(n1), indexing="ij")
-    w = np.exp(2j * np.pi * (kx * i / n0 + ky * j / n1)).astype(np.complex64)
-    waves = Waves(w.copy(), energy=ENERGY, sampling=(sx, sy))
-    out = np.asarray(laplace_op(c["accuracy"], (sx, sy)).apply(waves).array)
+    w = np.exp(2j * np.pi * (kx * i / n0 + ky * j / n1)).astype(np.complex128 if f64 else np.complex64)
+    with abtem.config.set({"precision": "float64" if f64 else "float32"}):
+        waves = Waves(w.copy(), energy=ENERGY, sampling=(sx, sy))
+        out = np.asarray(laplace_op(c["accuracy"], (sx, sy, f64)).apply(waves).array)
+    rtol = 1e-11 if f64 else 5e-5
     r = out / w
     spread = float(np.abs(r - r.mean()).max() / (abs(r.mean()) or 1.0))
     co = finite_difference_coefficients(2, c["accuracy"])
     ev = symbol(co, 2 * np.pi * kx / n0) / sx ** 2 + symbol(co, 2 * np.pi * ky / n1) / sy ** 2
     cont = -(2 * np.pi) ** 2 * ((kx / (n0 * sx)) ** 2 + (ky / (n1 * sy)) ** 2)
-    kind = "iso" if sx == sy else "aniso"
-    scale = abs(ev) or (1 / sx ** 2 + 1 / sy ** 2)
-    if spread > 5e-5 and (kx, ky) != (0, 0):
+    kind = ("iso" if sx == sy else "aniso") + (":float64" if f64 else "")
+    scale = 1 / sx ** 2 + 1 / sy ** 2
+    if not spread <= 5e-5 and (kx, ky) != (0, 0):
         ctx.violation(f"laplace-planewave-not-eigen:{kind}", c, {"what": "stencil output is not a multiple of the plane wave", "spread": spread})
-    elif abs(r.mean() - ev) > 5e-5 * scale + 1e-3:
+    elif not abs(r.mean() - ev) <= rtol * scale:
         ctx.violation(f"laplace-planewave-eigenvalue:{kind}", c,
                       {"what": "eigenvalue differs from the analytic symbol sum_k c_k cos(k theta_x)/dx^2 + sum_k c_k cos(k theta_y)/dy^2",
                        "observed": [float(r.mean().real), float(r.mean().imag)], "expected": float(ev), "continuum": float(cont)})
-    elif c["accuracy"] >= 6 and max(abs(kx) / n0, abs(ky) / n1) <= 0.13 and abs(ev - cont) > 2e-3 * abs(cont) + 1e-9:
+    elif c["accuracy"] >= 6 and max(abs(kx) / n0, abs(ky) / n1) <= 0.13 and not abs(ev - cont) <= 2e-3 * abs(cont) + 1e-9:
         ctx.violation(f"laplace-symbol-far-from-continuum:{kind}", c, {"symbol": float(ev), "continuum": float(cont)})
     return spread
 
@@ -75,14 +80,33 @@ def oracle_vacuum(ctx: Ctx, c):
     alg = RealSpaceMultislice(order=c["order"], expansion_scope=c["scope"], derivative_accuracy=c["accuracy"])
     w0 = np.asarray(probe.build(scan=scan, lazy=False).array)
     w1 = np.asarray(probe.multislice(pot, scan=scan, lazy=False).array)
-    w2 = np.asarray(probe.multislice(pot, scan=scan, algorithm=alg, lazy=False).array)
+    try:
+        w2 = np.asarray(probe.multislice(pot, scan=scan, algorithm=alg, lazy=False).array)
+    except Exception as e:  # noqa
+        from abtem.core.energy import energy2wavelength
+        from abtem.finite_difference import DivergedError, finite_difference_coefficients
+
+        # re-derive the recorded class independently: largest modulus of the series operator over the grid's modes,
+        # mu_max = dz * lambda * |symbol(pi, pi)| / (4 pi), symbol(pi, pi) = sum_k c_k (-1)^k (1/dx^2 + 1/dy^2)
+        co = finite_difference_coefficients(2, c["accuracy"])
+        m = len(co) // 2
+        sx, sy = c["extent"][0] / c["gpts"][0], c["extent"][1] / c["gpts"][1]
+        sym = abs(sum(float(co[m + q]) * (-1) ** q for q in range(-m, m + 1))) * (1 / sx ** 2 + 1 / sy ** 2)
+        mu = c["depth"] / c["nslices"] * energy2wavelength(ENERGY) * sym / (4 * np.pi)
+        if isinstance(e, DivergedError) and mu >= 20:
+            key = "vacuum-diverges:mu-max>=20"
+        else:
+            key = f"vacuum-raises:{type(e).__name__}:mu-max={'>=20' if mu >= 20 else '<20'}"
+        ctx.violation(key, c, {"what": "real-space vacuum propagation of a band-limited probe raised", "error": f"{type(e).__name__}: {e}"[:200],
+                               "mu_max": float(mu)})
+        return float("inf")
     kind = "iso" if c["gpts"][0] * c["extent"][1] == c["gpts"][1] * c["extent"][0] else "aniso"
     i0, i2 = float((np.abs(w0) ** 2).sum()), float((np.abs(w2) ** 2).sum())
     d = float(np.abs(w1 - w2).max() / np.abs(w1).max())
-    if abs(i2 - i0) > 2e-5 * i0:
+    if not abs(i2 - i0) <= 2e-5 * i0:
         ctx.violation(f"vacuum-intensity-not-preserved:{kind}", c, {"what": "real-space vacuum propagation changed the total intensity",
                                                                     "before": i0, "after": i2})
-    elif d > c["tol"]:
+    elif not d <= c["tol"]:
         ctx.violation(f"vacuum-propagation-ne-fourier:{kind}", c,
                       {"what": "real-space vacuum propagation differs from the Fourier (Fresnel) propagator", "rel_linf": d, "tol": c["tol"]})
     return d
@@ -107,7 +131,59 @@ def oracle_lazy(ctx: Ctx, c):
     return d
 
 
-ORACLES = {"eigen": oracle_eigen, "vacuum": oracle_vacuum, "lazy": oracle_lazy}
+def oracle_step(ctx: Ctx, c):
+    """one real-space step through a slice against the dense-matrix specification: exp(i dz S) with
+    S = sum_i p_i (L/4piK0)^i + V (scope propagator) or sum_i p_i (L/4piK0 + V)^i (scope full), p_1 = 1, p_i = (lambda/-2pi)^(i-1)/2
+    (Ultramicroscopy 134 (2013) 135, eqs. 8 and 14), L the periodic stencil matrix built here from the coefficient list, then the
+    antialias band limit.  Sees `order`, `expansion_scope`, the prefactors and the transmission term, which vacuum runs cannot."""
+    import scipy.linalg
+    from abtem import Waves
+    from abtem.antialias import AntialiasAperture
+    from abtem.core.energy import energy2sigma, energy2wavelength
+    from abtem.finite_difference import LaplaceOperator, finite_difference_coefficients, multislice_step
+    from abtem.potentials.iam import PotentialArray
+
+    n0, n1 = c["gpts"]
+    smp, E, dz, acc = tuple(c["sampling"]), c["energy"], c["dz"], c["accuracy"]
+    rng = np.random.default_rng(c["seed"])
+    w0 = (rng.standard_normal((n0, n1)) + 1j * rng.standard_normal((n0, n1))).astype(np.complex64)
+    w0 = np.asarray(AntialiasAperture().bandlimit(Waves(w0, energy=E, sampling=smp)).array)
+    v = (c["vscale"] * rng.random((1, n0, n1))).astype(np.float32)
+    pot = PotentialArray(v, slice_thickness=dz, sampling=smp)
+    out = multislice_step(Waves(w0.copy(), energy=E, sampling=smp), pot, None, LaplaceOperator(acc), max_terms=80, order=c["order"],
+                          fully_corrected=(c["scope"] == "full"))
+    out = out[0] if isinstance(out, tuple) else out
+    got = np.asarray(out.array)
+    wl = energy2wavelength(E)
+    K0 = 1 / wl
+    co = np.asarray(finite_difference_coefficients(2, acc), dtype=float)
+    m = len(co) // 2
+
+    def D(n, s_):
+        M = np.zeros((n, n))
+        for i in range(n):
+            for q in range(-m, m + 1):
+                M[i, (i + q) % n] += co[m + q] / s_ ** 2
+        return M
+
+    L = np.kron(D(n0, smp[0]), np.eye(n1)) + np.kron(np.eye(n0), D(n1, smp[1]))
+    V = np.diag((v[0].astype(float) * energy2sigma(E) / dz).reshape(-1))
+    A = L / (4 * np.pi * K0)
+    pref = lambda i: 1.0 if i == 1 else (wl / (-2 * np.pi)) ** (i - 1) * 0.5
+    if c["scope"] == "full":
+        S = sum(pref(i) * np.linalg.matrix_power(A + V, i) for i in range(1, c["order"] + 1))
+    else:
+        S = sum(pref(i) * np.linalg.matrix_power(A, i) for i in range(1, c["order"] + 1)) + V
+    ref = (scipy.linalg.expm(1j * dz * S) @ w0.astype(complex).reshape(-1)).reshape(n0, n1)
+    ref = np.asarray(AntialiasAperture().bandlimit(Waves(ref.astype(np.complex64), energy=E, sampling=smp)).array)
+    d = float(np.abs(got - ref).max() / np.abs(ref).max())
+    if not d <= 5e-6:
+        ctx.violation(f"step-ne-series-operator:order={min(c['order'], 3)}:{c['scope']}", c,
+                      {"what": "one real-space multislice step differs from exp(i dz S) of the series operator of the given order and scope", "rel_linf": d})
+    return d
+
+
+ORACLES = {"eigen": oracle_eigen, "vacuum": oracle_vacuum, "lazy": oracle_lazy, "step": oracle_step}
 
 
 def gen(ctx: Ctx, kind, i):
@@ -116,20 +192,31 @@ def gen(ctx: Ctx, kind, i):
         n0, n1 = rng.choice([12, 16, 24, 30]), rng.choice([12, 16, 24, 30])
         # a few operator configurations per run (each costs one numba compilation), many plane waves per configuration
         cfg = ctx.__dict__.setdefault("_c37_cfgs", [])
-        if len(cfg) < (4 if not ctx.thorough else 8):
+        if len(cfg) < (6 if not ctx.thorough else 12):
             sx = rng.choice([0.05, 0.1, 0.125, 0.2])
             sy = sx if len(cfg) % 2 == 1 else rng.choice([s for s in [0.05, 0.1, 0.125, 0.2, 0.25] if s != sx])
-            cfg.append((rng.choice([2, 4, 6, 8, 10, 14, 18]) if len(cfg) != 1 else 6, sx, sy))
-        acc, sx, sy = cfg[i % len(cfg)]
-        return dict(oracle="eigen", gpts=[n0, n1], sampling=[sx, sy], accuracy=acc,
+            # accuracies: every even value 2..18 is drawn over the seeds (each configuration costs one numba compilation);
+            # configuration 2 runs under precision float64
+            accs = [2, 4, 6, 8, 10, 12, 14, 16, 18]
+            cfg.append((accs[(ctx.seed * 5 + 2 * len(cfg) + rng.randint(0, 1)) % 9] if len(cfg) != 1 else 6, sx, sy, "float64" if len(cfg) == 2 else "float32"))
+        acc, sx, sy, prec = cfg[i % len(cfg)]
+        return dict(oracle="eigen", precision=prec, gpts=[n0, n1], sampling=[sx, sy], accuracy=acc,
                     k=[rng.randint(-n0 // 2, n0 // 2), rng.randint(-n1 // 2, n1 // 2)] if rng.random() < 0.6 else
                     [rng.randint(-1, 1), rng.randint(-2, 2)])
     if kind == "vacuum":
-        g = rng.choice([[32, 32], [32, 64], [48, 32], [64, 32], [40, 40]]) if i % 2 else rng.choice([[32, 64], [48, 32], [64, 32]])
+        if i == 0:  # the recorded divergence: 0.05 A pixels, 2 A slices (mu_max about 28)
+            return dict(oracle="vacuum", gpts=[80, 80], extent=[4.0, 4.0], depth=4.0, nslices=2, cutoff=10, defocus=0.0, accuracy=6, order=1,
+                        scope="propagator", tol=2e-4)
+        g = rng.choice([[32, 32], [32, 64], [48, 32], [64, 32], [40, 40], [64, 64], [80, 64]]) if i % 2 else rng.choice([[32, 64], [48, 32], [64, 32], [96, 96]])
         acc = rng.choice([4, 6, 8])
         return dict(oracle="vacuum", gpts=g, extent=[4.0, 4.0], depth=rng.choice([2.0, 4.0]), nslices=rng.choice([2, 4]),
                     cutoff=rng.choice([8, 10]), defocus=rng.choice([0.0, 20.0]), accuracy=acc, order=rng.choice([1, 2]),
                     scope=rng.choice(["propagator", "full"]), tol={4: 2e-3, 6: 2e-4, 8: 1e-4}[acc])
+    if kind == "step":
+        return dict(oracle="step", gpts=[rng.choice([8, 10, 12]), rng.choice([8, 11, 12])], sampling=[rng.choice([0.2, 0.25]), rng.choice([0.2, 0.3])],
+                    energy=rng.choice([60e3, 100e3, 200e3]), dz=rng.choice([0.5, 1.0]), accuracy=rng.choice([2, 4, 6, 8]),
+                    order=[1, 2, 3, 2][i % 4], scope=["propagator", "full"][(i // 2) % 2], vscale=rng.choice([5.0, 20.0, 40.0]),
+                    seed=rng.randint(0, 10 ** 6))
     g = rng.choice([[24, 24], [24, 32], [32, 24]])
     return dict(oracle="lazy", gpts=g, extent=[4.0, 4.0], depth=2.0, nslices=2, cutoff=15, accuracy=rng.choice([2, 4, 6]),
                 order=rng.choice([1, 2]), scope=rng.choice(["propagator", "full"]), symbols=["Si", "C"],
@@ -212,11 +299,42 @@ class C37(Property):
             lines.append(f"expseries {rat_s(y)} {calls[0]}")
             todo.append(("_multislice_exponential_series", dict(fn="expseries", y=y, terms=calls[0]), impl))
             ctx.count(f"expseries:terms={calls[0]}")
+        from abtem.finite_difference import DivergedError, NotConvergedError
+
+        for t in range(ctx.n(30, 300)):
+            K = rng.randint(1, 4)
+            amps = [dyadic(rng, 0, 4, 3) for _ in range(K)]
+            if sum(amps) == 0:
+                amps[0] = 1.0
+            ys = [rng.choice([0.0, dyadic(rng, 0, 1, 4), dyadic(rng, 0, 3, 3), dyadic(rng, 0, 8, 2)]) for _ in range(K)]
+            tol = rng.choice([1e-16, 1e-8, 1e-3, 0.25])
+            mt = rng.choice([2, 3, 5, 12, 80])
+            lam = np.array([-y * 4 * np.pi / 0.5 for y in ys])  # wavelength 0.5, thickness 1: mu_k = i * lam_k * 0.5 / (4 pi) = -i y_k
+            calls = [0]
+
+            def lapk(a, lam=lam, calls=calls):
+                calls[0] += 1
+                return lam.reshape(a.shape) * a
+
+            w0 = np.array(amps, dtype=np.complex128).reshape(1, K)
+            try:
+                _multislice_exponential_series(w0.copy(), np.zeros((1, K)), lapk, 0.5, 1.0, tolerance=tol, max_terms=mt, order=1)
+                impl = f"converged {calls[0]}"
+            except DivergedError:
+                impl = f"diverged {calls[0]}"
+            except NotConvergedError:
+                impl = "not_converged"
+            case = dict(fn="series", amps=amps, ys=ys, tol=tol, max_terms=mt)
+            lines.append("series " + ";".join(f"{rat_s(a)},{rat_s(y)}" for a, y in zip(amps, ys)) + f" {rat_s(tol)} {mt}")
+            todo.append(("_multislice_exponential_series(convergence logic)", case, ["str", impl]))
+            ctx.count("series:" + impl.split()[0])
         outs = drv.query(lines)
         for (fn, case, impl), out in zip(todo, outs):
             t = out.split()
             if t[0] == "err":
                 ctx.agree(fn, case, ["err", t[1]], impl)
+            elif impl[0] == "str":
+                ctx.agree(fn, case, out.strip(), impl[1])
             elif impl[0] == "ok":
                 ctx.agree(fn, case, ["ok"] + [float(Fraction(v)) for v in parse_list(t[1], str)], impl)
             elif impl[0] == "num":
@@ -236,9 +354,11 @@ class C37(Property):
         ctx.traces += len(todo)
 
     def conformance(self, ctx: Ctx):
-        for i in range(ctx.n(32, 400)):
+        for i in range(ctx.n(36, 400)):
             self.run(ctx, gen(ctx, "eigen", i))
-        for i in range(ctx.n(3, 14)):
+        for i in range(ctx.n(8, 60)):
+            self.run(ctx, gen(ctx, "step", i))
+        for i in range(ctx.n(4, 14)):
             self.run(ctx, gen(ctx, "vacuum", i))
         for i in range(ctx.n(2, 8)):
             self.run(ctx, gen(ctx, "lazy", i))
